@@ -30,6 +30,7 @@ func init() {
 			ruleFreelistCountConvention(c, "C12.R5")
 			c12R6(c, "C12.R6")
 			ruleChecksumAfterMutation(c, "C12.R7", 5)
+			rulePageTypeExact(c, "C12.R9") // v2: a page carries exactly one type flag
 			ruleInlineNoNested(c, "C12.R8") // v2 convention: an inline bucket has root page 0 and owns no pages
 		},
 	})
